@@ -253,35 +253,6 @@ theorem pyHostname_of_no_percent {n : Str} (h : '%' ∉ pyHostinfoHost n) :
 theorem unbracket_bracketed (inner : Str) : unbracket ('[' :: inner ++ [']']) = inner := by
   simp [unbracket]
 
-/-- on a netloc of the (suffix-aware) grammar `.hostname` is the lower-cased host, brackets
-removed -/
-theorem pyHostname_wf {n : Str} (hwf : wfNetloc n = true) (hsa : wfHostSA n = true) :
-    pyHostname n = lower (unbracket (specHost n)) := by
-  have hi := pyHostinfoHost_wf hwf
-  rw [pyHostname_of_no_percent, hi]
-  rw [hi]
-  obtain ⟨_, _, _, hh, _⟩ := wfNetloc_shape hwf
-  unfold wfHostSA at hsa
-  rcases hh with ⟨inner, hin, _⟩ | hp
-  · rw [hin] at hsa ⊢
-    simp only [List.cons_append, List.dropLast_concat, Bool.and_eq_true] at hsa
-    rw [unbracket_bracketed]
-    intro hm
-    have := mem_lower_of_mem (x := '%') (by decide) hm
-    have := (List.all_eq_true.mp hsa.2) _ this
-    simp [isHexDigit, isAsciiDigit] at this
-  · have hu : unbracket (specHost n) = specHost n := by
-      unfold unbracket
-      split
-      · next r heq => exact absurd (by rw [heq]; simp) (fun h : '[' ∈ specHost n => (hp _ h).2.1 rfl)
-      · rfl
-    rw [hu]
-    split at hsa
-    · next r heq => exact absurd (by rw [heq]; simp) (fun h : '[' ∈ specHost n => (hp _ h).2.1 rfl)
-    · intro hm
-      have := noneOf_iff.mp hsa _ hm
-      simp at this
-
 theorem not_bracket_of_plain {h : Str} (hp : Plain h) (r : Str) : h ≠ '[' :: r := by
   intro e
   exact (hp '[' (by rw [e]; simp)).2.1 rfl
@@ -300,12 +271,175 @@ theorem wfHostSA_of_plain {n : Str} (hp : Plain (specHost n)) :
   · rfl
 
 theorem wfHostSA_bracketed {n inner : Str} (h : specHost n = '[' :: inner ++ [']']) :
-    wfHostSA n = (inner.contains ':' && (lower inner).all (fun c => isHexDigit c || c == ':')) := by
+    wfHostSA n = true := by
   unfold wfHostSA
   rw [h]
-  simp only [List.cons_append, List.dropLast_concat]
+  rfl
 
 theorem wfHostSA_congr {n n' : Str} (h : specHost n' = specHost n) : wfHostSA n' = wfHostSA n := by
   unfold wfHostSA; rw [h]
+
+/-- on a plain host without `%` (the suffix-aware grammar) `.hostname` is the lower-cased host -/
+theorem pyHostname_plain {n : Str} (hwf : wfNetloc n = true) (hp : Plain (specHost n))
+    (hpct : '%' ∉ specHost n) : pyHostname n = lower (specHost n) := by
+  have hi := pyHostinfoHost_wf hwf
+  rw [unbracket_plain hp] at hi
+  rw [pyHostname_of_no_percent (by rw [hi]; exact hpct), hi]
+
+/-- lower-casing `.hostname` is lower-casing the host (CPython leaves only the zone id as
+written) -/
+theorem lower_pyHostname (n : Str) : lower (pyHostname n) = lower (pyHostinfoHost n) := by
+  unfold pyHostname
+  simp only
+  cases hs : splitAtFirst '%' (pyHostinfoHost n) with
+  | none => simp only [lower_idem]
+  | some az =>
+    obtain ⟨a, z⟩ := az
+    have e := (splitAtFirst_eq_some.mp hs).1
+    simp only
+    rw [e, lower_append, lower_append, lower_idem, lower_cons]
+
+/-- on a plain host, `.hostname` lower-cased is the host lower-cased (with or without `%`) -/
+theorem lower_pyHostname_plain {n : Str} (hwf : wfNetloc n = true) (hp : Plain (specHost n)) :
+    lower (pyHostname n) = lower (specHost n) := by
+  rw [lower_pyHostname, pyHostinfoHost_wf hwf, unbracket_plain hp]
+
+theorem not_mem_percent_of_wfHostSA {n : Str} (hp : Plain (specHost n)) (hsa : wfHostSA n = true) :
+    '%' ∉ specHost n := by
+  rw [wfHostSA_of_plain hp] at hsa
+  intro hm
+  have := noneOf_iff.mp hsa _ hm
+  simp at this
+
+theorem head_bracket_plain {h : Str} (hp : Plain h) : (h.head? == some '[') = false := by
+  cases h with
+  | nil => rfl
+  | cons c r =>
+    have : c ≠ '[' := (hp c (by simp)).2.1
+    simp [this]
+
+/-! ## a hostname holding `%` is no special host -/
+
+theorem mem_joinChar {sep c : Char} {l : List Str} (h : c ∈ joinChar sep l) :
+    c = sep ∨ ∃ g ∈ l, c ∈ g := by
+  induction l with
+  | nil => simp [joinChar] at h
+  | cons x xs ih =>
+    cases xs with
+    | nil => exact Or.inr ⟨x, by simp, by simpa [joinChar] using h⟩
+    | cons y ys =>
+      simp only [joinChar, List.mem_append, List.mem_cons] at h
+      rcases h with h | h | h
+      · exact Or.inr ⟨x, by simp, h⟩
+      · exact Or.inl h
+      · rcases ih h with e | ⟨g, hg, hc⟩
+        · exact Or.inl e
+        · exact Or.inr ⟨g, by simp [hg], hc⟩
+
+theorem not_isIPv4_of_percent {s : Str} (h : '%' ∈ s) : isIPv4 s = false := by
+  have hj : '%' ∈ joinChar '.' (splitChar '.' s) := by rw [joinChar_splitChar]; exact h
+  rcases mem_joinChar hj with e | ⟨g, hg, hc⟩
+  · cases e
+  · unfold isIPv4
+    simp only [Bool.and_eq_false_iff]
+    right
+    apply Bool.eq_false_iff.mpr
+    intro hall
+    have := List.all_eq_true.mp hall g hg
+    simp only [Bool.and_eq_true] at this
+    have := List.all_eq_true.mp this.2 _ hc
+    revert this; decide
+
+theorem not_localhost_of_percent {s : Str} (h : '%' ∈ s) : (lower s == "localhost".toList) = false := by
+  apply Bool.eq_false_iff.mpr
+  intro e
+  have e' : lower s = "localhost".toList := by simpa using e
+  have := mem_lower_of_mem (x := '%') (by decide) h
+  rw [e'] at this
+  revert this; decide
+
+theorem not_specialBody_of_percent {s : Str} (h : '%' ∈ s) : specialBody s = false := by
+  unfold specialBody
+  have h2 : specialAlt2 s = false := by
+    unfold specialAlt2
+    simp only [Bool.and_eq_false_iff]
+    right
+    apply Bool.eq_false_iff.mpr
+    intro hall
+    have := List.all_eq_true.mp hall _ h
+    revert this; decide
+  have h1 : specialAlt1 s = false := by
+    unfold specialAlt1
+    cases hs : splitAtFirst ':' s with
+    | none =>
+      show (lower s == "localhost".toList || isIPv4 s) = false
+      rw [not_localhost_of_percent h, not_isIPv4_of_percent h]; rfl
+    | some hp =>
+      obtain ⟨a, port⟩ := hp
+      have e := (splitAtFirst_eq_some.mp hs).1
+      rw [e] at h
+      simp only [List.mem_append, List.mem_cons] at h
+      rcases h with h | h | h
+      · show ((lower a == "localhost".toList || isIPv4 a) && port.all isAsciiDigit) = false
+        rw [not_localhost_of_percent h, not_isIPv4_of_percent h]; rfl
+      · cases h
+      · show ((lower a == "localhost".toList || isIPv4 a) && port.all isAsciiDigit) = false
+        simp only [Bool.and_eq_false_iff]
+        right
+        apply Bool.eq_false_iff.mpr
+        intro hall
+        have := List.all_eq_true.mp hall _ h
+        revert this; decide
+  simp [h1, h2]
+
+/-- a hostname holding `%` is no special host -/
+theorem not_isSpecialHost_of_percent {s : Str} (h : '%' ∈ s) : isSpecialHost s = false := by
+  unfold isSpecialHost
+  rw [not_specialBody_of_percent h]
+  simp only [Bool.false_or, Bool.and_eq_false_iff]
+  by_cases hl : s.getLast? = some '\n'
+  · right
+    apply not_specialBody_of_percent
+    have hne : s ≠ [] := by intro e; simp [e] at h
+    have hlast : s.getLast hne = '\n' := by
+      rw [List.getLast?_eq_some_getLast hne] at hl
+      simpa using hl
+    have := List.dropLast_concat_getLast hne
+    rw [← this, hlast] at h
+    simp only [List.mem_append, List.mem_singleton] at h
+    rcases h with h | h
+    · exact h
+    · cases h
+  · left; simpa using hl
+theorem percent_mem_pyHostname {n : Str} (h : '%' ∈ pyHostinfoHost n) : '%' ∈ pyHostname n := by
+  unfold pyHostname
+  simp only
+  cases hs : splitAtFirst '%' (pyHostinfoHost n) with
+  | none => exact absurd h (splitAtFirst_eq_none.mp hs)
+  | some az => simp
+
+theorem percent_mem_of_not_wfHostSA {n : Str} (hp : Plain (specHost n)) (h : wfHostSA n = false) :
+    '%' ∈ specHost n := by
+  rw [wfHostSA_of_plain hp] at h
+  by_cases hm : '%' ∈ specHost n
+  · exact hm
+  · have : noneOf ['%'] (specHost n) = true := by
+      apply noneOf_iff.mpr
+      intro c hc
+      simp only [List.mem_cons, List.not_mem_nil, or_false]
+      rintro rfl; exact hm hc
+    rw [this] at h; cases h
+
+/-- suffix-aware, a plain host with `%`: `.hostname` holds the `%`, is not empty and not special -/
+theorem pyHostname_percent_plain {n : Str} (hwf : wfNetloc n = true) (hp : Plain (specHost n))
+    (hpct : '%' ∈ specHost n) :
+    pyHostname n ≠ [] ∧ isSpecialHost (pyHostname n) = false := by
+  have hm : '%' ∈ pyHostname n := by
+    apply percent_mem_pyHostname
+    rw [pyHostinfoHost_wf hwf, unbracket_plain hp]; exact hpct
+  refine ⟨?_, not_isSpecialHost_of_percent hm⟩
+  intro e
+  rw [e] at hm
+  cases hm
 
 end Ural.Lru
